@@ -1,58 +1,85 @@
 #!/usr/bin/env python3
 """Copies the confirmed seeded changes from /tmp/seed into /verif/seeded/<id>/ (patch.diff, demo.py, notes.md, meta.json).
-meta.json: property, what it needs to manifest (from the author's notes), what was run to confirm it, and which check
-caught it (from the run logs given on the command line, later logs override earlier ones)."""
+
+usage: collect_seeds.py --first LOG... --final LOG...
+meta.json: property, round, what it needs to manifest (from the author's notes), what was run to confirm it, the verdict
+of the property's quick check when the change was first tried (`first_run`, earliest entry of the --first logs) and of
+the final checks (`checks_run`, latest entry of the --final logs)."""
 import glob, json, os, re, shutil, sys
-logs = sys.argv[1:]
-caught = {}
-for lg in logs:
-    if not os.path.exists(lg):
-        continue
-    cur_lines = []
-    for line in open(lg, errors="replace"):
-        m = re.match(r"SEED (C\d\d_\d) check=(C\d\d) exit=(\d+)", line)
-        if m:
-            sid, chk, ec = m.group(1), m.group(2), int(m.group(3))
-            caught.setdefault(sid, {})[chk] = dict(exit=ec, violation_lines=sum(1 for l in cur_lines if l.startswith("VIOLATION")),
-                                                   summary=next((l.strip()[:300] for l in cur_lines if l.startswith("[C")), ""))
-            cur_lines = []
-        else:
-            cur_lines.append(line)
+
+first_logs, final_logs, cur = [], [], None
+for a in sys.argv[1:]:
+    if a in ("--first", "--final"):
+        cur = first_logs if a == "--first" else final_logs
+    else:
+        cur.append(a)
+
+
+def parse(logs, keep):
+    got = {}
+    for lg in logs:
+        if not os.path.exists(lg):
+            continue
+        cur_lines = []
+        for line in open(lg, errors="replace"):
+            m = re.match(r"SEED ((?:r\d\w?_)?C\d\d_\d) check=(C\d\d) exit=(\d+)", line)
+            if m:
+                sid, chk, ec = m.group(1), m.group(2), int(m.group(3))
+                entry = dict(exit=ec, violation_lines=sum(1 for l in cur_lines if l.startswith("VIOLATION")),
+                             summary=next((l.strip()[:300] for l in cur_lines if l.startswith("[C")), ""))
+                d = got.setdefault(sid, {})
+                if keep == "last" or chk not in d:
+                    d[chk] = entry
+                cur_lines = []
+            elif line.startswith("SEED "):
+                cur_lines = []
+            else:
+                cur_lines.append(line)
+    return got
+
+
+def verdict(ec):
+    return "VIOLATION" if ec == 1 else "missed" if ec == 0 else f"engine error (exit {ec})"
+
+
+first, final = parse(first_logs, "first"), parse(final_logs, "last")
 out_root = "/verif/seeded"
 os.makedirs(out_root, exist_ok=True)
 rows = []
-for sd in sorted(glob.glob("/tmp/seed/C??_?")):
+for sd in sorted(glob.glob("/tmp/seed/*C??_?")):
     sid = os.path.basename(sd)
-    vf = f"{sd}.verify.json"
-    if not os.path.exists(vf):
+    if not re.fullmatch(r"(r\d\w?_)?C\d\d_\d", sid):
         continue
+    vf = f"{sd}.verify.json"
     try:
         v = json.load(open(vf))
     except Exception:
         continue
     if not v.get("confirmed"):
         continue
+    prop = re.search(r"C\d\d", sid).group(0)
     dst = os.path.join(out_root, sid)
     os.makedirs(dst, exist_ok=True)
     for f in ("patch.diff", "demo.py", "notes.md", "patch.orig.diff"):
         if os.path.exists(os.path.join(sd, f)):
             shutil.copy(os.path.join(sd, f), os.path.join(dst, f))
     notes = open(os.path.join(sd, "notes.md"), errors="replace").read() if os.path.exists(os.path.join(sd, "notes.md")) else ""
-    needs = ""
-    m = re.search(r"(?is)(what it needs[^\n]*\n.*?)(\n#|\n\*\*[A-Z]|\Z)", notes)
-    if m:
-        needs = re.sub(r"\s+", " ", m.group(1))[:900]
-    else:
-        needs = re.sub(r"\s+", " ", notes)[:900]
-    res = caught.get(sid, {})
-    meta = dict(seed=sid, property=sid.split("_")[0], written_by="independent sub-agent given only the property text and a scratch worktree",
+    title = re.sub(r"^#+\s*", "", notes.strip().splitlines()[0]) if notes.strip() else ""
+    m = re.search(r"(?is)(what (?:it|exactly it) needs[^\n]*\n.*?)(\n#|\n\*\*[A-Z]|\Z)", notes)
+    needs = re.sub(r"\s+", " ", m.group(1) if m else notes)[:900]
+    rnd = "2 (held out: written after the checks had been strengthened on round 1)" if sid.startswith("r2") else "1"
+    fr, fn = first.get(sid, {}), final.get(sid, {})
+    meta = dict(seed=sid, property=prop, round=rnd, summary=title,
+                written_by="independent sub-agent given only the property text and a scratch worktree",
                 needs_to_manifest=needs,
-                confirmation=dict(ran="tools/verify_seed.py in the scratch worktree: demo.py on the clean tree (exit 0 expected), git apply patch.diff, demo.py again (exit 1 expected), pinned test command of BASELINE.json with the patch (all 284 stable-pass tests must pass)",
-                                  demo_clean_exit=v["demo_clean_exit"], demo_patched_exit=v["demo_patched_exit"], tests_stable_pass_still_pass=v.get("tests_ok")),
-                checks_run={k: dict(exit=r["exit"], verdict=("VIOLATION" if r["exit"] == 1 else "missed" if r["exit"] == 0 else "engine-error (exit 2)"),
-                                    summary=r["summary"]) for k, r in res.items()},
-                detected_by=[k for k, r in res.items() if r["exit"] == 1])
+                confirmation=dict(ran="in a scratch worktree: demo.py on the clean tree (exit 0 expected), git apply patch.diff, demo.py again (exit 1 expected), pinned test command of BASELINE.json with the patch (all 284 stable-pass tests must pass)",
+                                  demo_clean_exit=v["demo_clean_exit"], demo_patched_exit=v["demo_patched_exit"],
+                                  tests_stable_pass_still_pass=v.get("tests_ok")),
+                rebased="patch.orig.diff is the author's patch; patch.diff is the same change rebased by hand on a later fix: commit" if os.path.exists(os.path.join(sd, "patch.orig.diff")) else None,
+                first_run={k: dict(exit=r["exit"], verdict=verdict(r["exit"])) for k, r in fr.items()},
+                checks_run={k: dict(exit=r["exit"], verdict=verdict(r["exit"]), summary=r["summary"]) for k, r in fn.items()},
+                detected_by=[k for k, r in fn.items() if r["exit"] == 1])
     json.dump(meta, open(os.path.join(dst, "meta.json"), "w"), indent=1)
-    rows.append((sid, meta["detected_by"], {k: r["exit"] for k, r in res.items()}))
+    rows.append((sid, {k: r["exit"] for k, r in fr.items()}, {k: r["exit"] for k, r in fn.items()}))
 for r in rows:
     print(r)
